@@ -43,6 +43,15 @@ func genPayload(t *rapid.T) []byte {
 	return vf.Payload{N: n, Fill: rapid.Byte().Draw(t, "pfill")}.Bytes()
 }
 
+// maybeEager makes, in a quarter of the cases, both scripted peers answer the moment the gateway
+// writes (from the links' write hooks, while the writer is still inside the write) instead of when
+// it has come to rest: a broker on the same host, a client on a fast link.
+func maybeEager(t *rapid.T, sc *gwsim.Script) {
+	if rapid.IntRange(0, 3).Draw(t, "eager_peers") == 0 {
+		sc.Steps = append(sc.Steps, gwsim.Step{K: "eager", D: int64(rapid.SampledFrom([]int{0, 1, 3, 10}).Draw(t, "yield"))})
+	}
+}
+
 // connectSteps returns the steps of a well-formed connect exchange for cfg.
 func connectSteps(cfg gwsim.Config, cid string, keepalive uint16) []gwsim.Step {
 	st := []gwsim.Step{gwgen.SN(gwgen.Connect(cid, keepalive, false, true))}
@@ -118,6 +127,12 @@ func genSession(t *rapid.T, o sessOpts) sessCase {
 	keepalive := uint16(60)
 	if o.control {
 		keepalive = 600 // time passes in these sessions
+	}
+	if rapid.IntRange(0, 3).Draw(t, "eager_peers") == 0 {
+		// both scripted peers answer the moment the gateway writes (from the links' write hooks), not
+		// when it has come to rest: a broker on the same host, a client on a fast link
+		sc.Steps = append(sc.Steps, gwsim.Step{K: "eager", D: int64(rapid.SampledFrom([]int{0, 1, 3, 10}).Draw(t, "yield"))})
+		c.PreConnect++ // (steps before the CONNECT are not judged as session traffic)
 	}
 	sc.Steps = append(sc.Steps, connectSteps(sc.Cfg, c.ClientID, keepalive)...)
 	n := rapid.IntRange(1, o.maxSteps).Draw(t, "nsteps")
